@@ -109,7 +109,9 @@ def rg1_registration_order(ctx, rep):
         rep.check(good, R, "store-%s-pushes-under-lock" % name, ctx.where(m), "%s pushes its argument onto `%s` under the lock" % (name, fld), "%s does not push its argument onto `%s` under its lock" % (name, fld))
 
 
-def _bool_value(path, term):
+def _bool_value(path, term, assume=None):
+    if assume and term in assume:
+        return assume[term]
     if term[0] == "const":
         if term[1] == "true":
             return True
@@ -119,7 +121,7 @@ def _bool_value(path, term):
         if k == term:
             return v.lstrip("*") not in ("0", "false")
     if term[0] == "unop" and term[1] == "Not":
-        x = _bool_value(path, term[2])
+        x = _bool_value(path, term[2], assume)
         return None if x is None else (not x)
     for k, v in path.decisions:
         if k == ("unop", "Not", term):
@@ -156,6 +158,18 @@ def su2_unsubscribe(ctx, rep):
         lbody, lterm = lt
         rep.check(strip_wrap(lterm) == ("field", ("param", 1), A.f_subscribers) and lbody.path == add.path, R, "handle-captures-own-list:" + fn, s.where,
                   "the handle's list is a clone of the creating store's `%s`" % A.f_subscribers, "the handle operates on %s (in %s)" % (term_str(lterm), short(lbody.path)))
+        # every (returning) path through the removing function performs the removal, and the list
+        # lock is taken with the blocking lock()
+        pe0 = ctx.paths(body, inline=True)
+        rep.stats["paths"] += len(pe0.paths)
+        for p0 in pe0.paths:
+            if p0.end != "return":
+                continue
+            has = [e for e in p0.calls() if e.bb == s.bb and e.body is not None and e.body.path == body.path]
+            rep.check(bool(has), R, "every-path-removes:" + fn, ctx.where(body), "path [%s] performs the removal" % p0.describe(), "path [%s] returns without removing the subscriber (unsubscribe() silently does nothing)" % p0.describe())
+        for ls in ctx.prog.sites(body):
+            if ls.ck.startswith("std::sync::Mutex::") and ls.ck.split("::")[-1] in ("lock", "try_lock"):
+                rep.check(ls.ck.endswith("::lock"), R, "waits-for-the-list-lock:" + fn, ls.where, "the list lock is taken with the blocking lock()", "the list lock is taken with try_lock: unsubscribe() gives up when the list is busy")
         # predicate closure
         preds = [st for st in subterms(bp.arg_term(s.bb, 1)) if st[0] == "agg" and st[1].startswith("closure:")]
         if len(preds) != 1:
@@ -167,31 +181,58 @@ def su2_unsubscribe(ctx, rep):
         rep.stats["paths"] += len(pe.paths)
         pfn = short(pc.path)
         n = 0
+        unsub_in_pred = 0
         for p in pe.paths:
             if p.end != "return":
                 continue
-            n += 1
             eqs = [e for e in p.calls() if e.ck == "std::sync::Arc::ptr_eq"]
             unsubs = [e for e in p.calls() if e.site is not None and A.event(e.site) == "UNSUB"]
-            keep = _bool_value(p, p.ret)
+            unsub_in_pred += len(unsubs)
             if len(eqs) != 1:
+                n += 1
                 rep.bad(R, "identity-test:" + pfn, ctx.where(pc), "path [%s] performs %d Arc::ptr_eq tests" % (p.describe(), len(eqs)))
                 continue
-            eq = _bool_value(p, eqs[0].result)
             a0, a1 = eqs[0].args[0], eqs[0].args[1]
             elem_ok = strip_wrap(a0) == ("param", 2) or strip_wrap(a1) == ("param", 2)
             other = a1 if strip_wrap(a0) == ("param", 2) else a0
             ob, ot = _resolve_upvars(ctx, pc, other)
             cap_ok = ob.path == add.path and strip_clone(strip_wrap(ot)) == ("param", 2)
             rep.check(elem_ok and cap_ok, R, "compares-element-with-own-subscriber:" + pfn, ctx.where(pc, eqs[0].bb), "ptr_eq(element, the subscriber this handle registered)", "ptr_eq(%s, %s [= %s in %s])" % (term_str(a0), term_str(a1), term_str(ot), short(ob.path)))
-            if keep is None or eq is None:
-                rep.bad(R, "predicate-undecided:" + pfn, ctx.where(pc), "path [%s]: cannot relate the returned value %s to the identity test" % (p.describe(), term_str(p.ret)))
-                continue
-            rep.check(keep == (not eq), R, "removes-exactly-the-identical-element:" + pfn, ctx.where(pc), "path [%s]: keep=%s, identical=%s" % (p.describe(), keep, eq), "path [%s]: element kept=%s although identical=%s" % (p.describe(), keep, eq))
-            want = 0 if keep else 1
-            good = len(unsubs) == want and all(strip_wrap(u.args[0]) == ("param", 2) for u in unsubs)
-            rep.check(good, R, "on_unsubscribe-iff-removed:" + pfn, ctx.where(pc, unsubs[0].bb) if unsubs else ctx.where(pc),
-                      "path [%s]: removed=%s, on_unsubscribe calls=%d" % (p.describe(), not keep, len(unsubs)), "path [%s]: removed=%s but %d on_unsubscribe call(s)" % (p.describe(), not keep, len(unsubs)))
+            eq0 = _bool_value(p, eqs[0].result)
+            # a branch-free predicate (`|s| !Arc::ptr_eq(..)`) leaves the test undecided on its
+            # single path: split on its two outcomes
+            for eq in ((eq0,) if eq0 is not None else (True, False)):
+                n += 1
+                keep = _bool_value(p, p.ret, {eqs[0].result: eq})
+                tag = "" if eq0 is not None else " with identical=%s" % eq
+                if keep is None:
+                    rep.bad(R, "predicate-undecided:" + pfn, ctx.where(pc), "path [%s]%s: cannot relate the returned value %s to the identity test" % (p.describe(), tag, term_str(p.ret)))
+                    continue
+                rep.check(keep == (not eq), R, "removes-exactly-the-identical-element:" + pfn, ctx.where(pc), "path [%s]%s: keep=%s, identical=%s" % (p.describe(), tag, keep, eq), "path [%s]%s: element kept=%s although identical=%s" % (p.describe(), tag, keep, eq))
+                if eq0 is None and not unsubs:
+                    continue  # release outside the predicate: decided below on the enclosing body
+                want = 0 if keep else 1
+                good = len(unsubs) == want and all(strip_wrap(u.args[0]) == ("param", 2) for u in unsubs)
+                rep.check(good, R, "on_unsubscribe-iff-removed:" + pfn, ctx.where(pc, unsubs[0].bb) if unsubs else ctx.where(pc),
+                          "path [%s]%s: removed=%s, on_unsubscribe calls=%d" % (p.describe(), tag, not keep, len(unsubs)), "path [%s]%s: removed=%s but %d on_unsubscribe call(s)" % (p.describe(), tag, not keep, len(unsubs)))
+        if unsub_in_pred == 0:
+            # the release happens in the enclosing body: accepted when every call is on this
+            # handle's own subscriber and guarded by a before/after length comparison of the list
+            outer = []
+            for p0 in pe0.paths:
+                if p0.end != "return":
+                    continue
+                for e in p0.calls():
+                    if e.site is not None and A.event(e.site) == "UNSUB" and e.body is not None and e.body.path == body.path:
+                        ob, ot = _resolve_upvars(ctx, body, e.args[0])
+                        own = ob.path == add.path and strip_clone(strip_wrap(ot)) == ("param", 2)
+                        lens = [k for k, v in p0.decisions if sum(1 for st in subterms(k) if st[0] == "call" and st[2] == "std::vec::Vec::len") >= 2]
+                        outer.append((own and bool(lens), e, p0))
+            if not outer:
+                rep.bad(R, "on_unsubscribe-iff-removed:" + fn, ctx.where(body), "the removed subscriber is never released (no on_unsubscribe in the predicate or the removing function)")
+            for good, e, p0 in outer:
+                rep.check(good, R, "on_unsubscribe-iff-removed:" + fn, ctx.where(body, e.bb), "path [%s]: releases the handle's own subscriber when the list got shorter" % p0.describe(),
+                          "path [%s]: on_unsubscribe outside the predicate cannot be related to the removal (receiver %s)" % (p0.describe(), term_str(e.args[0])))
         rep.floor(R, "predicate paths", n, 2, ctx.where(pc))
     # the subscriber pushed by add_subscriber is its parameter
     # the unsubscribe closure is what Subscription::unsubscribe of the returned handle calls
@@ -423,3 +464,43 @@ def su5_release_only_on_reducer_thread(ctx, rep):
     for s in clears:
         rep.check(s.body.path not in other, R, "release-not-callable-by-clients:%s" % short(s.body.path), s.where,
                   "the subscriber list is emptied only by the reducer thread at its end", "the subscriber list can be emptied from a client / pool / subscriber thread (%s is reachable from a public entry point): subscribers are released while the reducer thread may still be delivering" % short(s.body.path))
+
+
+def su6_snapshot_right_before_delivery(ctx, rep):
+    """the per-action snapshot of the subscriber list is taken immediately before the delivery
+    loop: no user callback (hook, reducer) runs between taking it and using it"""
+    R = "SU6"
+    A = ctx.A
+    from rules.pipe import _pipe
+    P = _pipe(ctx)
+    G = P.G
+    nots = P.ev.get("NOTIFY", [])
+    if not rep.floor(R, "direct notify sites", len(nots), 1):
+        return
+    # nodes that lock the subscriber list on the reducer thread's pass
+    from mirq.locks import LOCK_CALLS
+    lock = A.lock_id(A.f_subscribers)
+    lockn = []
+    for k, n in G.nodes.items():
+        t = n.body.blocks[n.bb]["term"]
+        if t["k"] != "call":
+            continue
+        s = Site(n.body, n.bb, t)
+        if s.ck in LOCK_CALLS:
+            lid = ctx.lr(n.body).lock_id_fn(ctx.prog, n.body, ctx.prog.bp(n.body).arg_term(n.bb, 0), s.fn)
+            if lid == lock:
+                lockn.append(k)
+    user = set()
+    for lab, lst in P.ev.items():
+        if lab == "REDUCE" or lab.startswith("HOOK:") or lab == "ON_ERROR":
+            user |= {k for k, s in lst}
+    for nk, ns in nots:
+        # list reads from which the notify is reachable within the pass
+        src = [k for k in lockn if nk in G.reach_after([k], avoid=P.recv)]
+        if not src:
+            rep.bad(R, "snapshot-source", ns.where, "no read of the subscriber list precedes the delivery loop in the pass")
+            continue
+        for k in src:
+            between = G.reach_after([k], avoid=set(P.recv) | {nk})
+            bad = [u for u in user if u in between and nk in G.reach_after([u], avoid=P.recv)]
+            rep.check(not bad, R, "no-callback-between-snapshot-and-delivery", ctx.where(G.nodes[k].body, G.nodes[k].bb), "the list is read right before the delivery loop", "user callbacks (%d sites, e.g. middleware hooks) run between reading the subscriber list and delivering: a subscriber that unsubscribed meanwhile is still notified" % len(bad))
